@@ -457,6 +457,53 @@ def cannot_create_part(ctx, rnd):
     shutil.rmtree(root, ignore_errors=True)
 
 
+def undecodable_part(ctx, rnd):
+    """Members whose method has no decoder (-lh2-, -lh3-, ...): no bytes are produced for them, so neither library nor tool may
+    call them good, alone or between good members, in any quiet level."""
+    root = os.path.join(build.scratch_root(), 'c07ud')
+    cli.mkdir_for_nobody(root)
+    cases = []
+    n = 0
+    for meth in (b'-lh2-', b'-lh3-', b'-lh8-', b'-lzx-', b'-pm3-', b'-lhq-'):
+        for lvl in (0, 1, 2):
+            data = bytes(rnd.randrange(256) for _ in range(40))
+            bad = arc.Member(H.simple_member(b'middle.bin', data, level=lvl, method=meth), data, data)
+            good = lambda nm: arc.file_member(rnd, '-lh5-', nm, size=30, level=lvl)
+            for shape, ms in (('alone', [bad]), ('between-good', [good(b'first.bin'), bad, good(b'last.bin')])):
+                if shape == 'alone' and meth == b'-lzx-':
+                    continue        # not a signature the archive scanner knows: such a file holds no members at all
+                n += 1
+                d = os.path.join(root, 'u%d' % n)
+                cli.mkdir_for_nobody(d)
+                a = arc.archive(ms)
+                open(os.path.join(d, 'a.lzh'), 'wb').write(a)
+                os.chmod(os.path.join(d, 'a.lzh'), 0o644)
+                for args in (['t', 'a.lzh'], ['tq', 'a.lzh'], ['t', 'a.lzh', 'middle.bin'], ['xf', 'a.lzh'], ['xq', 'a.lzh']):
+                    rc, so, se = cli.run_lha(_CLI, args, d, as_nobody=True)
+                    ctx.count('undecodable_member_runs')
+                    ctx.cov['evaluations'] += 1
+                    mode = args[0]
+                    if rc == 0:
+                        ctx.violation('C07-cli-exit-status:%s:undecodable-member' % mode[0], "'lha %s' exited 0 although the %s member (%s, level %d, %s) cannot be decoded"
+                                      % (' '.join(args), meth.decode(), shape, lvl, 'no bytes produced'), a)
+                    if any(l.startswith(b'middle.bin\t- ') and (b'Tested' in l or b'Melted' in l) for l in so.replace(b'\r', b'\n').split(b'\n')):
+                        ctx.violation('C07-cli-line:%s:false-good:undecodable-member' % mode[0], "'lha %s' reported the %s member as good" % (' '.join(args), meth.decode()), a)
+                cases.append(rdh.RCase(a, [(rdh.OP_WALK, 3)], kind=2, meta=(meth, shape)))
+                cases.append(rdh.RCase(a, [(rdh.OP_WALK, 4)], kind=2, meta=(meth, shape)))
+    sh = core.Shard()
+    res = rdh.run_batch(_EXE, cases, sh, label='c07ud', on_crash=lambda c, cls, key, err: sh.violation('C07-crash:' + key, err[-600:], c.archive))
+    for c in cases:
+        ev = res.get(c.id) or []
+        cur = None
+        for k, d in ev:
+            if k == 'next':
+                cur = d
+            elif k in ('check', 'extract') and cur is not None and cur['method'] == c.meta[0] and d['result'] == 1:
+                sh.violation('C07-false-good:%s:undecodable-member' % k, 'lha_reader_%s returned success for a %s member' % (k, c.meta[0].decode()), c.archive)
+    core.merge_shard(ctx, sh)
+    shutil.rmtree(root, ignore_errors=True)
+
+
 def burst_part(ctx, exe_enum):
     """Exhaustive (thorough) / sampled (quick) bursts of 1..16 bits on a 6-byte stored member, in-process."""
     # two targets: ordinary data in a level-2 header, and data whose true CRC is 0000 in a level-0 header (a recorded CRC that
@@ -511,10 +558,11 @@ def run(ctx):
     sequence_part(ctx, rnd)
     write_fault_part(ctx, rnd)
     cannot_create_part(ctx, rnd)
+    undecodable_part(ctx, rnd)
     burst_part(ctx, enum)
     ctx.cov['rule'] = ('archive variants (valid; recorded length n+-1/0/2^32-1; every single-bit flip of the recorded CRC; bit flips in member '
                        'data - every byte for small stored members; every truncation of small archives) over members of all 14 methods; three '
-                       'independent readers (read / check / extract) + CLI t and x; several decode operations on the same member of one reader (success only for the operation that saw the whole data; extracted file checked on disk); members whose output file cannot be created; extraction under write faults (file size limit placed in the '
+                       'independent readers (read / check / extract) + CLI t and x; several decode operations on the same member of one reader (success only for the operation that saw the whole data; extracted file checked on disk); members whose output file cannot be created; members whose method has no decoder; extraction under write faults (file size limit placed in the '
                        'first, a middle and the last stdio block of a member), judged on the bytes on disk; distinct by archive bytes; non-trivial = a non-valid variant '
                        'with at least one returned member')
     ctx.assumptions.append('MacBinary members excluded (their delivered bytes differ from the CRC\'d stream by design)')
